@@ -479,6 +479,8 @@ func (o c16Op) String() string {
 		return fmt.Sprintf("add(q%d,n=%d,c%d,d=%s)", o.Q, o.N, o.C, o.D)
 	case "fresh", "new":
 		return fmt.Sprintf("%s(%d)", o.Kind, o.M)
+	case "foreign":
+		return fmt.Sprintf("foreign-file(%d)", o.N%6)
 	}
 	return o.Kind
 }
@@ -588,6 +590,13 @@ func c16NewRun(ctx *Ctx, r *rand.Rand, idx int, base string) *c16Run {
 			o.M = c16Maxes[r.Intn(len(c16Maxes))]
 		case x < 87:
 			o.Kind = "clear"
+		case x < 89:
+			// another writer puts a valid history without a list of entries in place ({} / null / "entries": null - what Save on a
+			// zero-value object writes); the next operation is a Load on the object in use
+			o.Kind = "foreign"
+			o.N = r.Intn(6)
+			h.ops = append(h.ops, o)
+			o = c16Op{Kind: "load"}
 		default:
 			o.Kind = "views"
 			o.S = r.Int63()
@@ -926,6 +935,15 @@ func (h *c16Run) exec(o c16Op) {
 		if !h.dead {
 			h.common("NewSearchHistory", "content")
 		}
+	case "foreign":
+		content := []string{"{}", "{\"max_size\":10}", "{\"entries\":null,\"max_size\":100}", "null", "{\"max_size\":100}", "{\"entries\":null}"}[o.N%6]
+		os.MkdirAll(filepath.Dir(h.path), 0o755)
+		if err := os.WriteFile(h.path, []byte(content), 0o644); err != nil {
+			h.fail("roundtrip", "foreign", "cannot write: "+err.Error())
+			return
+		}
+		h.fileExists, h.fileLog, h.savedSinceLoad = true, nil, false
+		h.ctx.R.Path("files-without-an-entries-list-put-in-place", 1)
 	case "clear":
 		if err := h.cur.Clear(); err != nil {
 			h.fail("roundtrip", "Clear", "Clear failed: "+err.Error())
@@ -953,7 +971,7 @@ func (h *c16Run) views(seed int64) {
 	}
 }
 
-var c16Method = map[string]string{"add": "AddEntry", "save": "Save", "load": "Load", "fresh": "Save+Load", "new": "NewSearchHistory",
+var c16Method = map[string]string{"foreign": "another writer", "add": "AddEntry", "save": "Save", "load": "Load", "fresh": "Save+Load", "new": "NewSearchHistory",
 	"clear": "Clear", "views": "views"}
 
 // guard is vlib.Report.Guard with the witness built only when a panic happens
@@ -993,9 +1011,49 @@ func (h *c16Run) run() {
 	}
 }
 
+// c16LargeViews: histories with a maximum above the default and hundreds of different queries, early ones used again later
+// (not immediately): the views are recomputed from the entries as for every other history.
+func c16LargeViews(ctx *Ctx, r *rand.Rand) {
+	for k := 0; k < ctx.Pick(6, 60); k++ {
+		M := []int{150, 250, 1000, 101, 128}[r.Intn(5)]
+		n := 105 + r.Intn(400)
+		distinct := 101 + r.Intn(200)
+		path := filepath.Join(ctx.Scratch, "hlarge", fmt.Sprintf("h%d.json", k))
+		cs := map[string]interface{}{"engine": "histmodel", "class": "large history", "max": M, "searches": n, "different_queries": distinct}
+		ctx.R.Begin(cs)
+		ctx.R.Eval(1)
+		ctx.R.Guard("C16", "views", cs, func() {
+			sh := history.NewSearchHistory(path, M)
+			last := -1
+			for i := 0; i < n; i++ {
+				q := i
+				if i >= distinct || r.Intn(4) == 0 {
+					q = r.Intn(distinct) // an earlier query again
+				}
+				if q == last {
+					q = (q + 1) % distinct
+				}
+				last = q
+				sh.AddEntry(fmt.Sprintf("query number %d", q), q%9, "", time.Millisecond)
+			}
+			iss, inc := c16CheckViews(sh, r, false)
+			for i := 0; i < inc; i++ {
+				ctx.R.Inconcl("pattern view: containment depends on the reading of ignoring-case (special folds, invalid UTF-8 bytes)")
+			}
+			for _, is := range iss {
+				ctx.R.Violate(vlib.Violation{Property: "C16", Clause: is.Clause, Path: is.Path + "/large-history", Detail: is.Detail, Witness: cs})
+			}
+			ctx.R.Path("large-histories-viewed", 1)
+			ctx.R.Nontriv("large-history", k, M, n, distinct)
+		})
+	}
+	os.RemoveAll(filepath.Join(ctx.Scratch, "hlarge"))
+}
+
 func engineHistModel(ctx *Ctx) {
 	n := ctx.N(5000, 100000)
 	base := filepath.Join(ctx.Scratch, "hm")
+	c16LargeViews(ctx, vlib.NewRand(ctx.Seed, ctx.Shard, "histmodel/large"))
 	var ops, completed int64
 	for i := 0; i < n; i++ {
 		r := vlib.NewRand(ctx.Seed, ctx.Shard, fmt.Sprintf("histmodel/%d", i))
